@@ -4,7 +4,7 @@ the existing tests of the affected packages pass with it, the demonstration fail
 without it. Writes seeded_pending/<seed>/<m>/confirm.json."""
 import os, subprocess, json, glob, re, sys, shutil
 ENV = dict(os.environ, GOFLAGS="-mod=mod", GOPROXY="off", GOSUMDB="off", GOTOOLCHAIN="local")
-W = "/tmp/confirmrepo"
+W = os.environ.get("CONFIRM_W", "/tmp/confirmrepo")
 def sh(cmd, cwd=None, timeout=1500):
     try:
         r = subprocess.run(cmd, shell=True, cwd=cwd, env=ENV, capture_output=True, text=True, timeout=timeout)
